@@ -31,12 +31,20 @@ VARIABLES l, run, driver,
           cloned,     \* dst paths with a clone attempt
           inflight,   \* set of <<path, tid>> of copies entered and not returned
           dispatcher, \* parblock: the tid that opens destination files (0 = none yet)
+          nworkers,   \* --workers of the run (0 = not recorded)
+          liveSet, live, maxLive,   \* destination handles open now (set, count) and the peak of the count
           drift       \* set of drift descriptions for this run
-vars == <<l, run, driver, stage, opener, finBy, finStep, cloned, inflight, dispatcher, drift>>
+vars == <<l, run, driver, stage, opener, finBy, finStep, cloned, inflight, dispatcher, nworkers, liveSet, live, maxLive, drift>>
+
+\* XcpParblock!OpenBound: handles <= Q + W + 1 (Q = 128 queued block jobs, W running, one in the dispatcher's hands);
+\* XcpParfile: one handle per worker
+PoolQueue == 128
+HandleBound == IF driver = "parblock" THEN PoolQueue + nworkers + 1 ELSE nworkers
 
 Empty == [x \in {} |-> 0]
 Init == /\ l = 1 /\ run = "" /\ driver = "" /\ stage = Empty /\ opener = Empty /\ finBy = Empty /\ finStep = Empty
         /\ cloned = {} /\ inflight = {} /\ dispatcher = 0 /\ drift = {}
+        /\ nworkers = 0 /\ liveSet = {} /\ live = 0 /\ maxLive = 0
 
 Upd(f, k, v) == [x \in DOMAIN f \cup {k} |-> IF x = k THEN v ELSE f[x]]
 Known(p) == p \in DOMAIN stage
@@ -61,7 +69,12 @@ Event(r) ==
       isSync == r.ev = "sync" /\ call /\ dst
       isClose == r.ev = "close" /\ call /\ dst /\ Known(p)
       st == IF Known(p) THEN stage[p] ELSE "none"
+      opens == isOpenCreate /\ p \notin liveSet
+      closes == r.ev = "close" /\ call /\ dst /\ p \in liveSet
   IN
+  /\ liveSet' = IF opens THEN liveSet \cup {p} ELSE IF closes THEN liveSet \ {p} ELSE liveSet
+  /\ live' = IF opens THEN live + 1 ELSE IF closes THEN live - 1 ELSE live
+  /\ maxLive' = IF opens /\ live + 1 > maxLive THEN live + 1 ELSE maxLive
   /\ stage' = IF isOpenCreate THEN Upd(stage, p, "opened")
               ELSE IF isTrunc /\ st = "opened" THEN Upd(stage, p, "trunc")
               ELSE IF isTrunc /\ st = "trunc" THEN Upd(stage, p, "alloc")
@@ -88,7 +101,7 @@ Event(r) ==
        \cup D(isMeta /\ p \in DOMAIN finStep /\ Rank(r.kind) < finStep[p], "finalisation steps out of order (owner, xattrs, permissions, timestamps, fsync)")
        \cup D(isSync /\ p \in DOMAIN finStep /\ finStep[p] = 5, "second fsync")
        \cup D((isMeta \/ isSync) /\ driver = "parfile" /\ Known(p) /\ r.tid # opener[p], "parfile: finalisation by another thread than the opener")
-  /\ UNCHANGED <<run, driver>>
+  /\ UNCHANGED <<run, driver, nworkers>>
 
 Step ==
   /\ l <= Len(Rec) /\ l' = l + 1
@@ -96,10 +109,13 @@ Step ==
      IF r.ev = "reset"
        THEN /\ run' = r.run /\ driver' = r.driver /\ stage' = Empty /\ opener' = Empty /\ finBy' = Empty /\ finStep' = Empty
             /\ cloned' = {} /\ inflight' = {} /\ dispatcher' = 0 /\ drift' = {}
+            /\ nworkers' = r.workers /\ liveSet' = {} /\ live' = 0 /\ maxLive' = 0
      ELSE IF r.ev = "end"
-       THEN /\ PrintT(<<"LIFE", ToJson([run |-> run, drift |-> SetToSeq(drift \cup D(r.exit = 0 /\ \E p \in DOMAIN stage : stage[p] # "closed", "a destination file was not taken through to close")),
-                                        files |-> Cardinality(DOMAIN stage)])>>)
-            /\ UNCHANGED <<run, driver, stage, opener, finBy, finStep, cloned, inflight, dispatcher, drift>>
+       THEN /\ PrintT(<<"LIFE", ToJson([run |-> run,
+                                        drift |-> SetToSeq(drift \cup D(r.exit = 0 /\ ~r.partial /\ \E p \in DOMAIN stage : stage[p] # "closed", "a destination file was not taken through to close")
+                                                                 \cup D(nworkers > 0 /\ maxLive > HandleBound, "more destination handles open at once than the control-plane model allows (OpenBound)")),
+                                        files |-> Cardinality(DOMAIN stage), maxLive |-> maxLive, bound |-> HandleBound])>>)
+            /\ UNCHANGED <<run, driver, stage, opener, finBy, finStep, cloned, inflight, dispatcher, nworkers, liveSet, live, maxLive, drift>>
      ELSE Event(r)
 Spec == Init /\ [][Step]_vars
 AllRead == TLCGet("stats").diameter - 1 = Len(Rec)
